@@ -51,6 +51,23 @@ theorem burn_bal {b b' : Bank} {s : Acct} {d : Denom} {x : Int} (h : burn b s d 
       rw [bal_credit]
       split <;> omega
 
+theorem sendAway_bal {b b' : Bank} {s : Acct} {d : Denom} {x : Int} (h : sendAway b s d x = some b')
+    (a : Acct) (e : Denom) :
+    bal b' a e = bal b a e - (if s = a ∧ d = e then x else 0) := by
+  unfold sendAway at h
+  split at h
+  · simp at h
+  · split at h
+    · rename_i hx
+      simp only [Option.some.injEq] at h
+      subst h; subst hx; simp
+    · split at h
+      · simp at h
+      · simp only [Option.some.injEq] at h
+        subst h
+        rw [bal_credit]
+        split <;> omega
+
 theorem mint_bal (b : Bank) (t : Acct) (d : Denom) (x : Int) (a : Acct) (e : Denom) :
     bal (mint b t d x) a e = bal b a e + (if t = a ∧ d = e then (if x > 0 then x else 0) else 0) := by
   unfold mint
@@ -393,7 +410,7 @@ theorem start_spec {s s' : State} {a : Auction} (h : startStep s a = some s') :
     a.bidder = none ∧ s'.live = a :: s.live ∧ s'.cust = s.cust ∧ s'.coll = s.coll ∧ s'.closed = s.closed ∧
     s'.now = s.now ∧
     ∀ y e, bal s'.bank y e = bal s.bank y e
-      - (if a.kind = .surplusV1 ∧ s.coll = y ∧ a.lotDenom = e then a.lot else 0)
+      - (if (a.kind = .surplusV1 ∨ a.kind = .surplusV2) ∧ s.coll = y ∧ a.lotDenom = e then a.lot else 0)
       + (if a.kind = .surplusV1 ∧ s.cust = y ∧ a.lotDenom = e then a.lot else 0) := by
   unfold startStep at h
   split at h
@@ -415,11 +432,21 @@ theorem start_spec {s s' : State} {a : Auction} (h : startStep s a = some s') :
           intro y e
           rw [send_bal h1]
           simp
-      all_goals
-        simp only [Option.some.injEq] at h
+      · simp only [Option.some.injEq] at h
         subst h
         exact ⟨hb', rfl, rfl, rfl, rfl, rfl, by intro y e; simp⟩
-
+      · split at h
+        · simp at h
+        · rename_i b h1
+          simp only [Option.some.injEq] at h
+          subst h
+          refine ⟨hb', rfl, rfl, rfl, rfl, rfl, ?_⟩
+          intro y e
+          rw [sendAway_bal h1]
+          simp
+      · simp only [Option.some.injEq] at h
+        subst h
+        exact ⟨hb', rfl, rfl, rfl, rfl, rfl, by intro y e; simp⟩
 
 /-! ## invariants, one step at a time -/
 
@@ -654,5 +681,117 @@ theorem step_userNet {s s' : State} {op : Op} (h : step s op = some s') (x : Acc
       simp only [hb, Option.some.injEq]
       by_cases h1 : w = x <;> by_cases h2 : a.payDenom = d <;> by_cases h3 : a.lotDenom = d <;>
         simp [h1, h2, h3] <;> omega
+
+
+/-! ## the bid factor -/
+
+/-- the increment the code demands is at least `factor · standing` (as an exact rational: both sides × 10^18) -/
+theorem ceilChange_mul_ge (f : Dec) (x : Int) : ceilChange f x * Dec.P ≥ f * x := by
+  unfold ceilChange Dec.truncateInt Dec.ceil Dec.mulInt
+  generalize f * x = y
+  have h := Int.tdiv_mul_add_tmod y Dec.P
+  have hP : Dec.P ≠ 0 := by decide
+  simp only
+  split
+  · rw [Int.mul_tdiv_cancel _ hP]; omega
+  · split
+    · rw [Int.mul_tdiv_cancel _ hP]; omega
+    · rw [Int.mul_tdiv_cancel _ hP]
+      have : (y.tdiv Dec.P + 1) * Dec.P = y.tdiv Dec.P * Dec.P + Dec.P := by
+        rw [Int.add_mul]; simp
+      have hp : Dec.P > 0 := by decide
+      have := Int.tmod_lt_of_pos y hp
+      omega
+
+/-- … and less than one unit above it -/
+theorem ceilChange_mul_lt (f : Dec) (x : Int) (h0 : 0 ≤ f * x) : ceilChange f x * Dec.P < f * x + Dec.P := by
+  unfold ceilChange Dec.truncateInt Dec.ceil Dec.mulInt
+  generalize f * x = y at *
+  have h := Int.tdiv_mul_add_tmod y Dec.P
+  have hP : Dec.P ≠ 0 := by decide
+  have hp : Dec.P > 0 := by decide
+  have hr := Int.tmod_nonneg Dec.P h0
+  simp only
+  split
+  · rw [Int.mul_tdiv_cancel _ hP]; omega
+  · split
+    · omega
+    · rw [Int.mul_tdiv_cancel _ hP]
+      have : (y.tdiv Dec.P + 1) * Dec.P = y.tdiv Dec.P * Dec.P + Dec.P := by
+        rw [Int.add_mul]; simp
+      omega
+
+/-! ## whole histories -/
+
+/-- every user message in the history is signed by a user (the custody module account has no key) -/
+def UsersOnly (cust : Acct) (ops : List Op) : Prop := ∀ op ∈ ops, ∀ who, op.sender? = some who → who ≠ cust
+
+theorem apply_cases (s : State) (op : Op) : (step s op = some (apply s op)) ∨ (step s op = none ∧ apply s op = s) := by
+  unfold apply
+  cases h : step s op with
+  | none => exact Or.inr ⟨rfl, rfl⟩
+  | some s' => exact Or.inl rfl
+
+theorem run_inv (s : State) (ops : List Op) (g : Good s) (hu : UsersOnly s.cust ops) :
+    Good (run s ops) ∧ (run s ops).cust = s.cust ∧ (run s ops).coll = s.coll ∧
+    (∀ d, custGap (run s ops) d = custGap s d) ∧
+    (∀ x d, x ≠ s.cust → x ≠ s.coll → userNet (run s ops) x d = userNet s x d) := by
+  induction ops generalizing s with
+  | nil => exact ⟨g, rfl, rfl, fun _ => rfl, fun _ _ _ _ => rfl⟩
+  | cons op ops ih =>
+    have hso : SenderOk s op := fun who hw => hu op (by simp) who hw
+    simp only [run, List.foldl_cons]
+    rcases apply_cases s op with h | ⟨_, h⟩
+    · have hf := step_frame h
+      have hu' : UsersOnly (apply s op).cust ops := by
+        rw [hf.1]; exact fun o ho => hu o (by simp [ho])
+      obtain ⟨i1, i2, i3, i4, i5⟩ := ih (apply s op) (step_good h g hso) hu'
+      refine ⟨i1, by rw [← hf.1]; exact i2, by rw [← hf.2]; exact i3, ?_, ?_⟩
+      · intro d; rw [← step_custGap h g hso d]; exact i4 d
+      · intro x d h1 h2
+        rw [← step_userNet h x h1 h2 d]
+        exact i5 x d (by rw [hf.1]; exact h1) (by rw [hf.2]; exact h2)
+    · rw [h]
+      exact ih s g (fun o ho => hu o (by simp [ho]))
+
+theorem closed_have_winner (s : State) (ops : List Op) (h0 : ∀ c ∈ s.closed, c.bidder.isSome) :
+    ∀ c ∈ (run s ops).closed, c.bidder.isSome := by
+  induction ops generalizing s with
+  | nil => exact h0
+  | cons op ops ih =>
+    simp only [run, List.foldl_cons]
+    apply ih
+    rcases apply_cases s op with h | ⟨_, h⟩
+    · cases op with
+      | start a => obtain ⟨_, _, _, _, hc, _⟩ := start_spec h; rw [hc]; exact h0
+      | bid who app mapping id denom amt =>
+        obtain ⟨a, a', p, _, ha, _⟩ := bid_accepted h
+        obtain ⟨_, _, hc, _⟩ := accept_spec ha; rw [hc]; exact h0
+      | dbid who app mapping id denom amt ed ea =>
+        obtain ⟨a, a', p, _, ha, _⟩ := dbid_accepted h
+        obtain ⟨_, _, hc, _⟩ := accept_spec ha; rw [hc]; exact h0
+      | tick now =>
+        simp only [step] at h
+        split at h
+        · simp at h
+        · simp only [Option.some.injEq] at h; rw [← h]; exact h0
+      | settle id =>
+        obtain ⟨a, _, _, hr⟩ := settle_spec h
+        rcases hr with ⟨_, hs⟩ | ⟨w, b, hb, _, hs⟩
+        · rw [hs]; exact h0
+        · rw [hs]
+          intro c hc
+          rcases List.mem_cons.mp hc with hc | hc
+          · subst hc; simp [hb]
+          · exact h0 c hc
+    · rw [h]; exact h0
+
+theorem blockOps_no_sender (s : State) (now : Int) (cust : Acct) : UsersOnly cust (blockOps s now) := by
+  intro op hop who hw
+  unfold blockOps at hop
+  rcases List.mem_cons.mp hop with hop | hop
+  · subst hop; simp [Op.sender?] at hw
+  · obtain ⟨a, _, rfl⟩ := List.mem_map.mp hop
+    simp [Op.sender?] at hw
 
 end Comdex.English
